@@ -582,8 +582,12 @@ func (u *UnitResult) replay(o *OblResult, p *Program, base string) (rr ReplayRes
 			return
 		}
 	}
+	if u.Kind == "lemma" {
+		u.replayLemma(o, p, base, smt, doc, &rr)
+		return
+	}
 	if u.Kind != "func" || u.frame == nil {
-		doc.Notes = append(doc.Notes, "replay is implemented for function units only; the failed lemma is a statement over contracts")
+		doc.Notes = append(doc.Notes, "replay is implemented for function units and for lemmas with a replay template")
 		return
 	}
 	query, err := os.ReadFile(smt)
@@ -882,4 +886,83 @@ func (u *UnitResult) otherViolation(o *OblResult, exclude string, opt Options) b
 	a, _ := race(file, opt.TimeoutMs, 1, opt.Solvers)
 	_ = q
 	return a.Status != "unsat"
+}
+
+
+// replayLemma: a lemma talks about contracts, not one call; its replay is a hand-written template
+// (/verif/lemmas/<name>.replay.go.tmpl) that calls the real functions the lemma is about with the
+// model's values substituted for {{param}} and prints GOVC-CONFIRMED when the real code misbehaves.
+func (u *UnitResult) replayLemma(o *OblResult, p *Program, base, smt string, doc *replayDoc, rr *ReplayResult) {
+	tmplPath := filepath.Join(verifDir(), "lemmas", u.Key+".replay.go.tmpl")
+	tb, err := os.ReadFile(tmplPath)
+	if err != nil {
+		doc.Notes = append(doc.Notes, "no replay template for this lemma ("+tmplPath+")")
+		return
+	}
+	query, err := os.ReadFile(smt)
+	if err != nil {
+		return
+	}
+	sess, err := startZ3("z3-new")
+	if err != nil {
+		return
+	}
+	defer sess.close()
+	sess.send("(set-option :timeout 60000)")
+	sess.send(strings.Replace(string(query), "(check-sat)\n", "", 1))
+	sess.send("(check-sat)")
+	ans, err := sess.readSexp(90 * time.Second)
+	if err != nil || strings.TrimSpace(ans) != "sat" {
+		doc.Notes = append(doc.Notes, "model extraction: z3-new answered "+strings.TrimSpace(ans))
+		return
+	}
+	lm := p.Specs.Lemmas[u.Key]
+	g := u.gen
+	rb := &replayBuilder{u: u, g: g, m: &modelSession{s: sess, cache: map[string]string{}}, pkg: p.typesPkg(lm.PkgPath),
+		imports: map[string]string{}, inputs: map[string]string{}, backing: map[string]string{}, objs: map[string]string{}}
+	text := string(tb)
+	for _, prm := range lm.Params {
+		v := u.lemmaVals[prm.Name]
+		if v == nil {
+			continue
+		}
+		lit := rb.lit(v, v.T, g.entry, 0)
+		rb.inputs[prm.Name] = lit
+		text = strings.ReplaceAll(text, "{{"+prm.Name+"}}", lit)
+	}
+	doc.Inputs = rb.inputs
+	if len(rb.pre) > 0 || rb.partial {
+		doc.Notes = append(doc.Notes, "lemma parameters of this shape cannot be substituted into the template")
+		return
+	}
+	dir := "."
+	for _, line := range strings.Split(text, "\n") {
+		if strings.HasPrefix(line, "// package-dir:") {
+			dir = strings.TrimSpace(strings.TrimPrefix(line, "// package-dir:"))
+		}
+	}
+	testFile := base + "_test.go"
+	os.WriteFile(testFile, []byte(text), 0o644)
+	doc.TestFile = testFile
+	pkgDir := filepath.Join(p.RepoDir, dir)
+	ov := map[string]map[string]string{"Replace": {filepath.Join(pkgDir, "zz_govc_replay_test.go"): testFile}}
+	ovb, _ := json.Marshal(ov)
+	ovFile := base + "_overlay.json"
+	os.WriteFile(ovFile, ovb, 0o644)
+	cmdline := fmt.Sprintf("cd %s && GOFLAGS=-mod=mod GOPROXY=off go test -overlay %s -vet=off -count=1 -v -timeout 60s -run '^TestGovcReplay$' ./%s", p.RepoDir, ovFile, dir)
+	doc.TestCmd = cmdline
+	cmd := exec.Command("bash", "-c", "ulimit -v 8000000; "+cmdline)
+	cmd.Env = replayEnv()
+	outb, _ := cmd.CombinedOutput()
+	doc.Transcript = string(outb)
+	if len(doc.Transcript) > 6000 {
+		doc.Transcript = doc.Transcript[:6000]
+	}
+	if strings.Contains(string(outb), "GOVC-CONFIRMED") {
+		doc.Outcome = "confirmed"
+		rr.Confirmed = true
+	} else {
+		doc.Outcome = "not-confirmed"
+		doc.Notes = append(doc.Notes, "the real functions did not exhibit the behaviour the failed lemma allows on the model's values")
+	}
 }
